@@ -52,6 +52,10 @@ Clauses(S, rs) ==
      <<"maximal", \A k \in DOMAIN rs : Range(rs[k].max) = Range(MaximalOf(S, FALSE))>>,
      <<"duplicates", \A k \in DOMAIN rs : Len(rs[k].dups) = Len(S.edges) - Cardinality({S.e2n[e] : e \in EdgeSet(S)})
                                            /\ Range(rs[k].dups) \subseteq EdgeSet(S)>>,
+     <<"shortest_path_length", \A k \in DOMAIN rs : \A q \in DOMAIN rs[k].dist :
+          LET src == rs[k].dist[q][1]  d == DistFrom(S, src) IN
+          \A z \in DOMAIN rs[k].dist[q][2] : LET t == rs[k].dist[q][2][z][1]  v == rs[k].dist[q][2][z][2]
+                                               IN IF t \in DOMAIN d THEN v = d[t] ELSE v = -1>>,
      <<"degree_matrix", \A k \in DOMAIN rs : AllNodes(rs[k].degm, S) /\
                           \A q \in DOMAIN rs[k].degm : rs[k].degm[q][2] = Degree(S, rs[k].degm[q][1])>>,
      <<"simpliciality", \A k \in DOMAIN rs : Close(rs[k].sed, rs[1].sed) /\
